@@ -184,6 +184,17 @@ def main(ck, tier, w):
             return rp, None
         h0, blocks = c
         d = write_dir(w, blocks, h0)
+        if i % 4 == 3 and len(blocks) >= 3:
+            # a proper sub-range (the CLI wants start < end): the figures are those of the range only (direct recomputation)
+            lo = r0.choice([0, 1])
+            hi = len(blocks) - 2 if lo == 0 else len(blocks) - 1
+            r = run.run_parser(d.path, 'simplestats', start=(h0 + lo) or (0 if h0 == 0 and lo == 0 else None), end=h0 + hi if hi < len(blocks) - 1 else None)
+            if r.rc != 0:
+                return rp, (['exit status %d: %s' % (r.rc, r.stderr[-300:])], r, h0)
+            for b in blocks:
+                b['size'] = len(b['raw'])
+            sub = [(h0 + k, b) for k, b in enumerate(blocks) if lo <= k <= hi]
+            return rp, (['(range %d..%d) ' % (lo, hi) + x for x in compare(chains.parse_stats(r.stdout), expected_from_ref(sub, 'bitcoin'))], r, h0)
         r = run.run_parser(d.path, 'simplestats', start=h0 or None)
         if r.rc != 0:
             return rp, (['exit status %d: %s' % (r.rc, r.stderr[-300:])], r, h0)
